@@ -38,6 +38,7 @@ const (
 	opDiscard   = "discard"    // replace temp VM i by a fresh one
 	opScript    = "script"     // run a probing script on the VM (no state change expected)
 	opAutoload  = "autoload"   // a script on the VM instantiates \Auto\Ac<n>, which only exists as a file under a registered namespace directory
+	opLoadFile  = "load-file"  // the (temporary) VM loads and runs file <n> from disk (LoadAndRun, the include / request-entry path): it declares class Fc<n>, interface Fi<n> and function ff<n>; several VMs may load the same unchanged file
 )
 
 type tvOp struct {
@@ -107,6 +108,9 @@ func tempvmHandler(req *sb.Req) *sb.Rep {
 		os.WriteFile(filepath.Join(autoDir, "Auto", fmt.Sprintf("Ac%d.php", n)), []byte(fmt.Sprintf("<?php\nnamespace Auto;\nclass Ac%d { function who() { return 'auto%d'; } }\n", n, n)), 0o644)
 	}
 	base.AddNamespace("Auto", filepath.Join(autoDir, "Auto"))
+	for n := 0; n < cfg.Names; n++ {
+		os.WriteFile(filepath.Join(autoDir, fmt.Sprintf("lib%d.php", n)), []byte(fmt.Sprintf("<?php\nclass Fc%d { function who() { return 'file%d'; } }\ninterface Fi%d { function im(); }\nfunction ff%d() { return 'ff%d'; }\n", n, n, n, n, n)), 0o644)
+	}
 	vmOf := func(i int) data.VM {
 		if i < 0 {
 			return base
@@ -154,6 +158,13 @@ func tempvmHandler(req *sb.Req) *sb.Rep {
 					// autoloadable classes: a plain lookup only (LoadPkg would itself load the file)
 					_, ok = vm.GetClass(fmt.Sprintf("Auto\\Ac%d", n))
 					m[fmt.Sprintf("GetClass:auto:%d", n)] = ok
+					// what file <n> declares
+					_, ok = vm.GetClass(fmt.Sprintf("Fc%d", n))
+					m[fmt.Sprintf("GetClass:fclass:%d", n)] = ok
+					_, ok = vm.GetInterface(fmt.Sprintf("Fi%d", n))
+					m[fmt.Sprintf("GetInterface:finterface:%d", n)] = ok
+					_, ok = vm.GetFunc(fmt.Sprintf("ff%d", n))
+					m[fmt.Sprintf("GetFunc:ffunc:%d", n)] = ok
 				}()
 			}
 			row[v+1] = m
@@ -277,6 +288,12 @@ func tempvmHandler(req *sb.Req) *sb.Rep {
 						prog.GetValue(base.CreateContext(p.GetVariables()))
 					}
 				}
+			case opLoadFile:
+				if t, ok := vm.(*runtime.TempVM); ok {
+					if _, acl := t.LoadAndRun(filepath.Join(autoDir, fmt.Sprintf("lib%d.php", op.N))); acl != nil {
+						out.Errors = append(out.Errors, "load-file failed: "+clip(acl.AsString(), 160))
+					}
+				}
 			case opDiscard:
 				if op.VM >= 0 {
 					temps[op.VM] = newTemp()
@@ -338,6 +355,12 @@ func c12Judge(pool *sb.Pool, rec *sb.Rec, cfg tvCfg) *failure {
 			nm = "auto:" + fmt.Sprint(op.N)
 		}
 		switch op.Op {
+		case opLoadFile:
+			if op.VM >= 0 {
+				for _, k := range []string{"fclass", "finterface", "ffunc"} {
+					local[op.VM][k+":"+fmt.Sprint(op.N)] = true
+				}
+			}
 		case opDefSrc, opDefDirect, opAutoload:
 			if op.VM < 0 {
 				base[nm] = true
@@ -440,6 +463,7 @@ func TestC12(t *testing.T) {
 	}
 	alpha = append(alpha, tvOp{Op: opDefSrc, VM: 0, Kind: "class", N: 0, Lower: true})
 	alpha = append(alpha, tvOp{Op: opAutoload, VM: 0, Kind: "auto", N: 0}, tvOp{Op: opAutoload, VM: -1, Kind: "auto", N: 1})
+	alpha = append(alpha, tvOp{Op: opLoadFile, VM: 0, Kind: "file", N: 0}, tvOp{Op: opLoadFile, VM: 1, Kind: "file", N: 0})
 	alpha = append(alpha, tvOp{Op: opDiscard, VM: 0}, tvOp{Op: opScript, VM: 0}, tvOp{Op: opScript, VM: 1}, tvOp{Op: opScript, VM: -1})
 	maxLen := 3
 	if cfg.Thorough() {
@@ -488,7 +512,13 @@ func TestC12(t *testing.T) {
 		n := rapid.IntRange(1, 40).Draw(rt, "len")
 		for i := 0; i < n; i++ {
 			op := tvOp{VM: rapid.IntRange(-1, c.Temps-1).Draw(rt, "vm"), Kind: rapid.SampledFrom([]string{"class", "interface", "func"}).Draw(rt, "kind"), N: rapid.IntRange(0, 7).Draw(rt, "n")}
-			switch rapid.IntRange(0, 9).Draw(rt, "op") {
+			switch rapid.IntRange(0, 11).Draw(rt, "op") {
+			case 10, 11:
+				// the same few files over and over, from whichever temporary VM
+				op.Op, op.Kind, op.N = opLoadFile, "file", rapid.IntRange(0, 2).Draw(rt, "file")
+				if op.VM < 0 {
+					op.VM = 0
+				}
 			case 0, 1, 2, 3:
 				op.Op = opDefSrc
 				if op.Kind == "class" && rapid.IntRange(0, 2).Draw(rt, "lower") == 0 {
